@@ -101,3 +101,55 @@ Section Fast.
 End Fast.
 
 Definition f64_build_fast := build_fast F64Ops.
+
+(* ---------- weights without their common power of two ----------
+   The integer weights [c11_zb bg] are the background frequencies times 2^j with j the exponent of the
+   finest one AS A FLOAT (53-bit mantissas: j >= 54 even for the uniform background), so the word
+   weights have 54*M bits and more.  All of them share a factor 2^t; dividing it out (and using
+   j - t for j) changes no tail (DistGrid.red_bracket_one_eq) and makes the integers M*(j-t) bits long
+   (2*M for the uniform background).  The division is checked, not trusted: if it is not exact, or
+   t > j, nothing is divided. *)
+Fixpoint pos_val2 (p : positive) : nat :=
+  match p with xO q => S (pos_val2 q) | _ => O end.
+
+Definition common_val2 (l : list Z) : option nat :=
+  fold_left (fun acc n =>
+               match n with
+               | Z0 => acc
+               | Zpos p | Zneg p =>
+                   match acc with None => Some (pos_val2 p) | Some a => Some (Nat.min a (pos_val2 p)) end
+               end) l None.
+
+Definition c11_red (j : Z) (bgz : list Z) : list Z * Z :=
+  match common_val2 bgz with
+  | None => (bgz, 0)
+  | Some tn =>
+      let t := Z.of_nat tn in
+      let c := 2 ^ t in
+      let bgz' := map (fun n => n / c) bgz in
+      if (t <=? j) && forallb (fun n => n =? c * (n / c)) bgz then (bgz', t) else (bgz, 0)
+  end.
+
+(* the bracket check with reduced weights: [grid] selects the table per distinct score or per word *)
+Definition c11_bracket_fails_red (grid : bool) (m : list (list F64.t)) (bg : list F64.t) (br : list (F64.t * F64.t)) : list (nat * nat) :=
+  match br with
+  | [] => []
+  | _ =>
+    match q_stage_a (c11_qm m) with
+    | Ok (_, scale) =>
+        if Qle_bool scale 0 then []
+        else
+          let '(bgz', t) := c11_red (c11_j bg) (c11_zb bg) in
+          let tab := (if grid then conv_tableZ else word_tableZ) (c11_zc m) bgz' in
+          c11_index_fails 0 (map (c11_bracket_one tab (c11_k m) (c11_j bg - t) scale (Z.of_nat (length m)) (c11_delta m bg)) br)
+    | _ => []
+    end
+  end.
+
+Definition check_C11_red_fails (grid : bool) (m : list (list F64.t)) (bg : list F64.t) (sf : list F64.t)
+    (pv br rt : list (F64.t * F64.t)) : list (nat * nat) :=
+  if c11_in_scope m bg then
+    c11_table_fails sf ++ c11_bracket_fails_red grid m bg br ++
+    (if f64_chk_mono pv then [] else [(6, 0)%nat]) ++
+    c11_index_fails 0 (map (c11_rt_one (c11_delta m bg)) rt)
+  else [].
